@@ -1,29 +1,30 @@
 /* Proof units for C19 (date-time VALUES): the REAL source/date_time.c + source/posix/time.c + clock.inl / math.inl driven by
- * plain harnesses ("complete" mode: the loops are bounded by a constant of the code - aws_date_time_init_from_str_cursor
- * refuses more than AWS_DATE_TIME_STR_MAX_LEN = 100 bytes - and are unwound 101 times with unwinding assertions).
+ * plain harnesses ("complete" mode).  Every harness quantifies over a FAMILY of texts: the layout choices (separators, one or
+ * two digits, designator, sign, ...) and every digit / letter are symbolic; the texts of a family are at most 36 bytes long
+ * (fraction families: up to 100 bytes, the cap of aws_date_time_init_from_str_cursor), so the loops of the library are
+ * unwound past the longest text, with unwinding assertions.
  *
- * libc is NOT part of the proof: timegm / mktime / gmtime_r / localtime_r / strftime are replaced by the models below, which
- * record their arguments in ghost variables, return ARBITRARY ghost values fixed by the harness and write arbitrary values
- * to their out-parameters.  What is decided is the in-repo half of C19: which tm fields and which UTC offset the parsers
- * extract from a text of an accepted layout, that the instant is timegm(fields) - offset, which format string / tm / buffer
- * window the formatters hand to strftime, and that the epoch views are consistent.  Whether timegm/gmtime_r/strftime agree
- * with the proleptic Gregorian calendar is not decidable here (see roundtrip_native.c for the bounded stand-in).
+ * libc is NOT part of the proof: timegm / mktime / gmtime_r / localtime_r / strftime are replaced by the models of
+ * c19_models.h, which record their arguments in ghost variables, return ARBITRARY ghost values fixed by the harness and write
+ * arbitrary values to their out-parameters.  What is decided is the in-repo half of C19: which tm fields and which UTC
+ * offset the parsers extract from a text of an accepted layout, that the instant is timegm(fields) - offset, which format
+ * string / tm / buffer window the formatters hand to strftime, and the arithmetic of the epoch views.  Whether
+ * timegm / gmtime_r / strftime agree with the proleptic Gregorian calendar is not decidable here (roundtrip_native.c is the
+ * bounded stand-in for that half).
  *
- * Memory safety of the parsers on arbitrary bytes is C04's subject (units/C04); here every input object has EXACTLY the
- * length of the text, so an over-read still shows up as a failed bounds obligation. */
-#ifdef C19_HYBRID
-#include "contracts/date_time.h"
-#else
+ * Memory safety of the parsers on arbitrary bytes is C04's subject (units/C04).  Here the cursor covers exactly the bytes of
+ * the text inside a larger array whose remaining bytes are arbitrary: a parser that read past the end would see arbitrary
+ * bytes and fail the value assertions for some of them. */
 #include "contracts/common.h"
+#ifdef C19_MATH_CONTRACT
+#include "contracts/math.h" /* C16: contract of aws_timestamp_convert_u64 (replaces the call in h_init_epoch_millis) */
 #endif
 #include <math.h>
 #include <stdlib.h>
 #include <time.h>
 
 /* ---- environment: error slot (ghost view, same meaning as contracts/common.h), fatal assert ---- */
-#ifndef C19_HYBRID
 void aws_raise_error_private(int err) { g_last_error = err; g_raise_count++; }
-#endif
 void aws_fatal_assert(const char *cond_str, const char *file, int line) {
     (void)cond_str; (void)file; (void)line;
     __CPROVER_assert(0, "aws_fatal_assert reachable");
@@ -157,18 +158,19 @@ static void check_iso(enum aws_date_format fmt, size_t frac_lo, size_t frac_hi) 
     else if (e_off > 0) CANARY("ISO positive offset");
     else if (e_off < 0) CANARY("ISO negative offset");
     else CANARY("ISO Z or zero offset");
-    if (frac_hi > 0 && g_p >= 22 + frac_hi) CANARY("ISO longest fraction of the range");
+    if (frac_hi > 0 && g_p >= 17 + frac_hi) CANARY("ISO longest fraction of the range");
 }
 /* the format selector is a constant per harness */
 void h_iso_ext(void) { check_iso(AWS_DATE_FORMAT_ISO_8601, 0, 0); }
 void h_iso_basic(void) { check_iso(AWS_DATE_FORMAT_ISO_8601_BASIC, 0, 0); }
 void h_iso_auto(void) { check_iso(AWS_DATE_FORMAT_AUTO_DETECT, 0, 0); }
-#ifndef FRAC_LO
-#define FRAC_LO 1
-#define FRAC_HI 9
-#endif
-void h_iso_ext_frac(void) { check_iso(AWS_DATE_FORMAT_ISO_8601, FRAC_LO, FRAC_HI); }
-void h_iso_auto_frac(void) { check_iso(AWS_DATE_FORMAT_AUTO_DETECT, FRAC_LO, FRAC_HI); }
+/* fractional seconds: 1..9 digits (milli / micro / nanoseconds); longer fractions in the thorough tier */
+void h_iso_ext_frac(void) { check_iso(AWS_DATE_FORMAT_ISO_8601, 1, 9); }
+void h_iso_auto_frac(void) { check_iso(AWS_DATE_FORMAT_AUTO_DETECT, 1, 9); }
+/* 10 .. as many digits as fit into the 100 bytes the entry point lets through (a basic-format text has 17 other bytes) */
+void h_iso_frac_10_30(void) { check_iso(AWS_DATE_FORMAT_ISO_8601, 10, 30); }
+void h_iso_frac_31_60(void) { check_iso(AWS_DATE_FORMAT_ISO_8601, 31, 60); }
+void h_iso_frac_61_83(void) { check_iso(AWS_DATE_FORMAT_ISO_8601, 61, 83); }
 
 /* ================================================================== RFC 822 ========================================
  * layout family:  [Www] ',' SP  D[D] SP Mon[letters] SP (YYYY|YY) SP hh:mm:ss SP [zone]
@@ -223,7 +225,7 @@ static void gen_rfc822(bool weekday, int zone) {
     put(any_case(k_months[3 * e_mon + 2]));
     size_t nm = nondet_size_t(); /* "September": further letters are ignored */
 #ifndef NM
-#define NM 6
+#define NM 1
 #endif
     __CPROVER_assume(nm <= NM);
     for (size_t i = 0; i < nm; ++i) { uint8_t c = nondet_u8(); __CPROVER_assume(is_alpha(c)); put(c); }
@@ -415,40 +417,26 @@ static struct aws_date_time any_dt(void) {
     return dt;
 }
 
-/* as_millis: exactly 1000 t + ms for EVERY non-negative instant whose millisecond count fits 64 bits (far beyond 9999) */
+/* as_millis: exactly 1000 t + ms for EVERY non-negative instant whose millisecond count fits 64 bits (year 584 million) */
+#define T_MAX_MILLIS ((UINT64_MAX - 65535u) / 1000u)
 void h_as_millis(void) {
     reset_models();
     struct aws_date_time dt = any_dt();
-    __CPROVER_assume(dt.timestamp >= 0);
-    u128 exact = (u128)(uint64_t)dt.timestamp * 1000u + dt.milliseconds;
-    __CPROVER_assume(exact <= UINT64_MAX);
+    __CPROVER_assume(dt.timestamp >= 0 && (uint64_t)dt.timestamp <= T_MAX_MILLIS);
     uint64_t r = aws_date_time_as_millis(&dt);
-    __CPROVER_assert(r == (uint64_t)exact, "as_millis == 1000 * timestamp + milliseconds");
+    __CPROVER_assert(r == (uint64_t)dt.timestamp * 1000u + dt.milliseconds, "as_millis == 1000 * timestamp + milliseconds");
     if (dt.timestamp > T_MAX_9999) CANARY("as_millis beyond 9999"); else CANARY("as_millis within 1970..9999");
 }
-/* as_nanos: exactly 10^9 t + 10^6 ms wherever that fits 64 bits (instants up to 2554-07-21) */
+/* as_nanos: exactly 10^9 t + 10^6 ms wherever that fits 64 bits for every value of the milliseconds field (instants up to
+ * 2554-07-21T23:33:28Z); together with h_as_millis: as_nanos == 10^6 * as_millis on that range */
+#define T_MAX_NANOS ((UINT64_MAX - 65535u * 1000000u) / 1000000000u)
 void h_as_nanos_exact(void) {
     reset_models();
     struct aws_date_time dt = any_dt();
-    __CPROVER_assume(dt.timestamp >= 0);
-    u128 exact = (u128)(uint64_t)dt.timestamp * 1000000000u + (u128)dt.milliseconds * 1000000u;
-    __CPROVER_assume(exact <= UINT64_MAX);
+    __CPROVER_assume(dt.timestamp >= 0 && (uint64_t)dt.timestamp <= T_MAX_NANOS);
     uint64_t r = aws_date_time_as_nanos(&dt);
-    __CPROVER_assert(r == (uint64_t)exact, "as_nanos == 10^9 * timestamp + 10^6 * milliseconds");
+    __CPROVER_assert(r == (uint64_t)dt.timestamp * 1000000000u + (uint64_t)dt.milliseconds * 1000000u, "as_nanos == 10^9 * timestamp + 10^6 * milliseconds");
     CANARY("as_nanos representable");
-}
-/* the three views of one date-time agree: nanos == 10^6 * millis, and the double view is the same millisecond */
-void h_views_consistent(void) {
-    reset_models();
-    struct aws_date_time dt = any_dt();
-    __CPROVER_assume(dt.timestamp >= 0 && dt.timestamp <= T_MAX_9999 && dt.milliseconds <= 1000);
-    uint64_t ms = aws_date_time_as_millis(&dt);
-    uint64_t ns = aws_date_time_as_nanos(&dt);
-    if ((u128)ms * 1000000u <= UINT64_MAX) {
-        __CPROVER_assert(ns == ms * 1000000u, "as_nanos == 10^6 * as_millis (where 64 bits can hold it)");
-        CANARY("nanos and millis compared");
-    }
-    CANARY("views computed");
 }
 /* instants between 2554 and 9999 do not fit 64-bit nanoseconds: the conversion saturates (clock.inl), and the view must
  * then be the saturated value UINT64_MAX - not a small number */
@@ -456,10 +444,11 @@ void h_as_nanos_to_9999(void) {
     reset_models();
     struct aws_date_time dt = any_dt();
     __CPROVER_assume(dt.timestamp >= 0 && dt.timestamp <= T_MAX_9999 && dt.milliseconds <= 1000);
-    u128 exact = (u128)(uint64_t)dt.timestamp * 1000000000u + (u128)dt.milliseconds * 1000000u;
+    const uint64_t t = (uint64_t)dt.timestamp, msn = (uint64_t)dt.milliseconds * 1000000u;
+    const bool fits = t <= UINT64_MAX / 1000000000u && t * 1000000000u <= UINT64_MAX - msn;
     uint64_t r = aws_date_time_as_nanos(&dt);
-    __CPROVER_assert(r == (exact <= UINT64_MAX ? (uint64_t)exact : UINT64_MAX), "as_nanos == min(2^64-1, 10^9 * timestamp + 10^6 * milliseconds) for every instant 1970..9999");
-    if (exact > UINT64_MAX) CANARY("as_nanos past 2554"); else CANARY("as_nanos representable");
+    __CPROVER_assert(r == (fits ? t * 1000000000u + msn : UINT64_MAX), "as_nanos == min(2^64-1, 10^9 * timestamp + 10^6 * milliseconds) for every instant 1970..9999");
+    if (!fits) CANARY("as_nanos past 2554"); else CANARY("as_nanos representable");
 }
 
 /* as_epoch_secs: the double nearest to timestamp + ms/1000 up to the two roundings of the expression; multiplied back it is
@@ -482,6 +471,9 @@ void h_as_epoch_secs(void) {
 /* ================================================================== init from epoch ================================ */
 void h_init_epoch_millis(void) {
     reset_models();
+#ifdef C19_MATH_CONTRACT
+    g_conv_on = false;
+#endif
     uint64_t ms = nondet_u64();
     struct aws_date_time dt = any_dt();
     aws_date_time_init_epoch_millis(&dt, ms);
